@@ -380,9 +380,9 @@ def check(run: Run) -> None:
             raise AnalysisError("anchor-vanished", f"C07.g: {sites} push sites found, expected at least 3")
 
     with run.obligation("C07.h", "K1", "a simulation run never takes a time from the host clock through the node scheduler: wall-clock alarms are refused unless the executor "
-                        "supports them (shared with C18.b, C18.b2)"):
+                        "supports them, and the scheduler handed to a static node supports them iff the executor is a real-time one (shared with C18.b, C18.b2, C18.f)"):
         from . import c18
-        R.share(run, "C07.h", c18, ["C18.b", "C18.b2"])
+        R.share(run, "C07.h", c18, ["C18.b", "C18.b2", "C18.f"])
 
     with run.obligation("C07.i", "K8", "the interning primitive returns ONE canonical address per key even when several executors build their types concurrently: the insertion "
                         "into the key index happens in the same critical section as a lookup that returns the existing entry (the unlocked factory may have raced), so a "
@@ -415,8 +415,51 @@ def check(run: Run) -> None:
                                     "same critical section: two threads interning the same new key each get their own copy (two addresses for one schema)", loc=fa_.loc(st))
         run.sites(n_ins, 2, "InternTable insertions")
 
+    with run.obligation("C07.j", "K7", "a top-level wiring reads / writes its wiring-time global state through the SAME store that finish copies into the graph as the seed: "
+                        "both sites select the user's live GlobalContext state iff `kind == TopLevel && live_seeded` (the flag fixed at construction); a wiring created "
+                        "without a selected context never touches a context that happens to be open for another graph while it is composed"):
+        GW = "src/hgraph/types/graph_wiring.cpp"
+
+        def conj_of(e, cn_):
+            out, st_ = set(), [e]
+            while st_:
+                x = st_.pop()
+                if isinstance(x, C.Binary) and x.op == "&&":
+                    st_ += [x.l, x.r]
+                elif x is not None:
+                    out.add(cn_(x).replace(" ", ""))
+            return out
+        fa_g = R.fn(run, GW, "Wiring::global_state")
+        cg = R.Canon()
+        sel_g = [i for i in fa_g.body.walk() if isinstance(i, C.If) and R.calls(i.then, "active_state")]
+        run.sites(len(sel_g), 1, "global_state live-store selection")
+        fa_f = R.fn(run, GW, "Wiring::finish_top_level")
+        cf = R.Canon()
+        sel_f = [n_ for n_ in fa_f.body.walk() if isinstance(n_, C.Ternary) and "active_state" in cf(n_.a) + cf(n_.b)]
+        run.sites(len(sel_f), 1, "finish_top_level live-store selection")
+        want = {"impl_->kind==WiringKind::TopLevel", "impl_->live_seeded"}
+        run.count(2, "C07.j")
+        g_c = conj_of(sel_g[0].cond, cg)
+        f_c = conj_of(sel_f[0].c, cf)
+        run.sample({"rule": "C07.j", "global_state": sorted(g_c), "finish_top_level": sorted(f_c)})
+        if g_c != want:
+            run.finding("C07.j", "Wiring::global_state:live-store-condition", f"Wiring::global_state() uses the active GlobalContext state when {sorted(g_c)}; finish selects the seed "
+                        f"when {sorted(want)}: a wiring that was not live-seeded reads and writes another graph's selected state while it is composed, and its own seed "
+                        "misses those writes", loc=fa_g.loc(sel_g[0]))
+        if f_c != want:
+            run.finding("C07.j", "Wiring::finish_top_level:live-store-condition", f"finish_top_level copies the active GlobalContext state as the seed when {sorted(f_c)}, but wiring-time "
+                        f"reads and writes went through it only when {sorted(want)}", loc=fa_f.loc(sel_f[0]))
+        # live_seeded is decided once, at construction, from the context selected THEN
+        writes = R.field_writers(run.tree, "live_seeded", [GW])
+        run.count(len(writes), "C07.j.writes")
+        if len(writes) != 1 or not writes[0][1].endswith("Impl::Impl"):
+            run.finding("C07.j", "live_seeded:writers", f"live_seeded must be set exactly once, in the constructor of the wiring: {[(w[1], w[3]) for w in writes]}", loc=GW)
+
 
 VARIANTS = [
+    {"id": "h-seed-C07-6-injected-scheduler-supports-wall-clock-in-simulation", "expect": "C07.h", "edits": [{"file": "include/hgraph/types/static_node.h", "find": "                const bool supports_wall_clock = executor.valid() &&\n                                                 executor.schema()->mode == GraphExecutorMode::RealTime;", "replace": "                const bool supports_wall_clock = executor.valid() && view.evaluation_clock().valid();"}]},
+    {"id": "j-seed-C07-5-global-state-ignores-live-seeded", "expect": "C07.j", "edits": [{"file": "src/hgraph/types/graph_wiring.cpp", "find": "  if (impl_->kind == WiringKind::TopLevel && impl_->live_seeded) {\n    if (GlobalState *state = GlobalContext::active_state()) {", "replace": "  if (impl_->kind == WiringKind::TopLevel) {\n    if (GlobalState *state = GlobalContext::active_state()) {"}]},
+    {"id": "j-finish-ignores-live-seeded", "expect": "C07.j", "edits": [{"file": "src/hgraph/types/graph_wiring.cpp", "find": "  GlobalState *live = impl_->kind == WiringKind::TopLevel && impl_->live_seeded\n", "replace": "  GlobalState *live = impl_->kind == WiringKind::TopLevel\n"}]},
     {"id": "i-intern-drops-recheck", "expect": "C07.i", "edits": [{"file": "include/hgraph/types/utils/intern_table.h", "find": "            std::lock_guard lock(m_mutex);\n            if (const auto it = m_cache.find(key); it != m_cache.end()) { return *it->second; }\n\n            const Value *result = value.get();", "replace": "            std::lock_guard lock(m_mutex);\n            const Value *result = value.get();"}]},
     {"id": "g-mesh-scope-popped-only-on-success", "expect": "C07.g", "edits": [{"file": "include/hgraph/lib/std/operators/impl/higher_order_impl.h", "find": "                auto pop = make_scope_exit([] noexcept { OperatorRegistry::instance().pop_mesh_scope(); });\n", "replace": ""}, {"file": "include/hgraph/lib/std/operators/impl/higher_order_impl.h", "find": "explicit_key_meta, &external_services, &w, \"mesh_\");\n", "replace": "explicit_key_meta, &external_services, &w, \"mesh_\");\n                OperatorRegistry::instance().pop_mesh_scope();\n"}]},
     {"id": "g-context-scope-destructor-forgets-pop", "expect": "C07.g", "edits": [{"file": "include/hgraph/types/context_wiring.h", "find": "        ~scope() { graph_wiring_detail::pop_context_source(); }", "replace": "        ~scope() {}"}]},
